@@ -169,6 +169,45 @@ def corr(c, tier, rng):
     outs = vlib.run_model(lines)
     for line, got, want, info in zip(lines, outs, wants, infos):
         compare(c, "generated-kernels-vs-impl", line, got, want, info)
+    scan_correspondence(c, tier, rng)
+    # array combinators (Concatenate, Stack, Partial, Reshape, EmbedCondition, Vmap, Scan) through C08's array model:
+    # C01's lawfulness theorems for them are C08.concatenate_lawful / stack_lawful / partial_lawful / … over that model
+    from props import c08
+    c08.corr(c, tier, rng, n_trees=25 if tier == "quick" else 150)
+
+
+def scan_objects(rng):
+    """real Scans over layers with DIFFERENT parameters (stacks of flow layers, as every premade flow builds them)"""
+    import jax.random as jr
+    from flowjax import flows
+    from flowjax.distributions import StandardNormal
+    import props.c03 as c03
+    k = jr.PRNGKey(rng.randrange(10 ** 6))
+    L = rng.choice([2, 3, 4])
+    locs = jnp.asarray([[rng.uniform(-1, 1) for _ in range(3)] for _ in range(L)])
+    scs = jnp.asarray([[rng.choice([-1, 1]) * math.exp(rng.uniform(-0.5, 0.5)) for _ in range(3)] for _ in range(L)])
+    yield "Scan(Affine x%d)" % L, B.Scan(eqx.filter_vmap(lambda l, s: fj.affine(l, s))(locs, scs)), None
+    base = StandardNormal((3,))
+    for name, fl, cd in (
+        ("coupling_flow", c03.perturb(flows.coupling_flow(k, base_dist=base, flow_layers=3, nn_width=6), rng), None),
+        ("coupling_flow|cond", c03.perturb(flows.coupling_flow(k, base_dist=base, cond_dim=2, flow_layers=2, nn_width=6), rng), 2),
+        ("maf", c03.perturb(flows.masked_autoregressive_flow(k, base_dist=base, flow_layers=3, nn_width=6), rng), None),
+        ("planar", c03.perturb(flows.planar_flow(k, base_dist=base, flow_layers=3, negative_slope=0.1), rng), None),
+    ):
+        yield name, fl.bijection.bijection, cd  # Invert(Scan(layers)) -> the Scan
+
+
+def scan_correspondence(c, tier, rng):
+    """C08.scan_eq_chain on the real side: the real Scan against the real Chain of its unstacked layers, all four methods"""
+    for rep in range(1 if tier == "quick" else 4):
+        for name, scan, cd in scan_objects(rng):
+            x = jnp.asarray([rng.uniform(-1.5, 1.5) for _ in range(3)])
+            cond = jnp.asarray([rng.uniform(-1, 1) for _ in range(cd)]) if cd else None
+            bad = fj.scan_vs_chain_mismatches(scan, x, cond)
+            c.case(("scan", name, rep), True)
+            c.count("scan-vs-chain")
+            for m, a, b in bad:
+                c.mismatch("scan-vs-chain-of-unstacked-layers", object=name, method=m, scan=a, chain=b, x=np.asarray(x).tolist())
 
 
 # ------------------------------------------------------------------ witness search on the real code
